@@ -24,6 +24,127 @@ def pcm16(hexs):
     b = bytes.fromhex(hexs)
     return list(struct.unpack("<%dh" % (len(b) // 2), b))
 
+def kernel_case(rng):
+    """one call of one of the 40 kernels of mix_all.c: sample memory sized from the closed-form positions (Model/MixKernel.v pos_at) so
+    that every read the model makes is inside it - an exact-size heap block in the driver, so a read outside it is an ASan report"""
+    interp = rng.choice(("nearest", "linear", "spline"))
+    flt = interp != "nearest" and rng.random() < 0.5
+    wide = rng.randrange(2); sin = rng.randrange(2); sout = rng.randrange(2)
+    nm = "%s_%s_%s_%s%s" % ("stereoout" if sout else "monoout", "stereo" if sin else "mono", "16bit" if wide else "8bit", interp, "_filter" if flt else "")
+    chn = 2 if sin else 1
+    count = rng.choice((0, 1, 2, 3, 5, 8, 17, 40, rng.randrange(0, 120)))
+    ramp = rng.choice((0, 0, count, count // 2, count + 3, rng.randrange(0, count + 1)))
+    step = rng.choice((0, 1, 65535, 65536, 65537, 32768, 3 * 65536 + 17, rng.randrange(0, 4 << 16), -rng.randrange(0, 4 << 16), -65536, -1, rng.randrange(-(20 << 16), 20 << 16)))
+    pos = rng.randrange(0, 50); frac = rng.choice((0, 1, 32767, 32768, 65535, rng.randrange(65536)))
+    f0 = frac + (32768 if interp == "nearest" else 0)
+    frames = [pos + ((f0 + k * step) >> 16) for k in range(max(count, 1))]
+    back = 1 if interp == "spline" else 0; fwd = {"nearest": 0, "linear": 1, "spline": 2}[interp]
+    # exactly the window the theorem kernel_reads_in_window needs most of the time; sometimes wider
+    slack = rng.choice((0, 0, 0, 1, 3))
+    lo = min(frames) - back - slack; hi = max(frames) + fwd + slack
+    nbefore = max(0, -lo) if lo < 0 else 0
+    if lo > 0 and rng.random() < 0.5: nbefore = -lo           # memory that starts after sample position 0
+    total = hi + 1 + nbefore
+    val = (lambda: rng.choice((-32768, 32767, 0, rng.randrange(-32768, 32768)))) if wide else (lambda: rng.choice((-128, 127, 0, rng.randrange(-128, 128))))
+    data = [val() for _ in range(total * chn)]
+    base = nbefore * chn
+    vl = rng.choice((0, 64, -64, rng.randrange(-4096, 4097))); vr = rng.choice((0, 64, rng.randrange(-4096, 4097)))
+    dl = rng.choice((0, 0, rng.randrange(-3000, 3000))); dr = rng.choice((0, 0, rng.randrange(-3000, 3000)))
+    ovl = rng.randrange(-(1 << 20), 1 << 20); ovr = rng.randrange(-(1 << 20), 1 << 20)
+    a0 = rng.randrange(0, 1 << 22); b0 = rng.randrange(-(1 << 22), 1 << 23); b1 = rng.randrange(-(1 << 22), 1 << 22)
+    if rng.random() < 0.3: a0, b0, b1 = 1 << 22, 0, 0
+    fl = lambda: rng.choice((0, rng.randrange(-(1 << 31), (1 << 31) - 32768), rng.randrange(-(1 << 20), 1 << 20)))
+    l1, l2, r1, r2 = fl(), fl(), fl(), fl()
+    nb = count * (2 if sout else 1) + rng.choice((0, 0, 3))
+    buf = [rng.choice((0, rng.randrange(-(1 << 24), 1 << 24))) for _ in range(nb)]
+    return "%s %d %d %d %d %d %d %d %d %d %d %d %d %d %d %d %d %d %d %d %d %d | %s | %s" % (
+        nm, wide, sin, count, ramp, vl, vr, step, dl, dr, a0, b0, b1, l1, l2, r1, r2, ovl, ovr, pos, frac, base, " ".join(map(str, data)), " ".join(map(str, buf)))
+
+def kernel_variants(l):
+    """the C14 clauses at kernel level, asked of the implementation itself: the same call (z) on a zeroed buffer, (s) with the two gains,
+    their previous values and their ramp steps exchanged (mono sample, stereo output), (g) with both gains 0 and no ramp"""
+    head, data, buf = l.split("|")
+    h = head.split(); nb = len(buf.split())
+    name, count, ramp = h[0], int(h[3]), int(h[4])
+    out = {"z": "%s|%s| %s" % (head, data, " ".join(["0"] * nb))}
+    if "stereoout_mono" in name:
+        w = list(h); w[5], w[6] = h[6], h[5]; w[8], w[9] = h[9], h[8]; w[17], w[18] = h[18], h[17]
+        out["s"] = "%s |%s|%s" % (" ".join(w), data, buf)
+    w = list(h); w[5] = w[6] = "0"; w[4] = str(max(count, ramp))
+    out["g"] = "%s |%s|%s" % (" ".join(w), data, buf)
+    return out
+
+def kernel_clauses(l, res, var, vres):
+    """None, or what fails.  res / vres: driver output lines 'R b.. | l1 l2 r1 r2'"""
+    def parse(x):
+        if not x.startswith("R"): return None
+        b, f = x[1:].split("|"); return [int(v) for v in b.split()], f.split()
+    buf0 = [int(v) for v in l.split("|")[2].split()]
+    r = parse(res)
+    if r is None: return None
+    for k, vl in var.items():
+        v = parse(vres.get(k, ""))
+        if v is None: return "variant %s: no answer" % k
+        if k == "z":
+            if [x - y for x, y in zip(r[0], buf0)] != v[0]: return "what the kernel adds to the buffer depends on what the buffer held (same call on a zeroed buffer adds something else)"
+            if r[1] != v[1]: return "the filter history after the call depends on what the buffer held"
+        elif k == "s":
+            d = [x - y for x, y in zip(r[0], buf0)]; e = [x - y for x, y in zip(v[0], buf0)]
+            n = 2 * int(l.split()[3])
+            if any(d[i] != e[i ^ 1] for i in range(min(n, len(d) - len(d) % 2))): return "exchanging the left and right gains does not exchange the left and right contributions"
+        elif k == "g":
+            if v[0] != buf0: return "gains 0 without a ramp: the kernel changes the buffer"
+    return None
+
+def kernel_leg(ck, tier, replay):
+    """Model/MixKernel.v against the compiled kernels of src/mix_all.c, called directly; and the kernel-level clauses of C14 (what a
+    kernel adds does not depend on the buffer, zero gains add nothing, exchanged gains exchange the channels) asked of the compiled
+    kernels themselves - the search for a failing input when the correspondence breaks"""
+    rng = ck.rng
+    model = V.ocaml_build("mixkernel"); drv = V.build_driver("kern_drv", ["kern_drv.c"])
+    rp = json.load(open(replay)) if replay else None
+    lines = [rp["case"]] if replay else [kernel_case(rng) for _ in range(12000 if tier == "quick" else 400000)]
+    stats = {"kernel_calls": len(lines), "kernels_covered": len(set(l.split(" ", 1)[0] for l in lines)), "disagreements": 0, "frames_mixed": 0, "clause_checks": 0, "clause_failures": 0}
+    first_bad = None
+    for off in range(0, len(lines), 10000):
+        chunk = lines[off:off + 10000]
+        inp = "\n".join(chunk) + "\n"
+        mo = V.run([model], inp=inp, timeout=3000).stdout.split("\n")
+        rc = V.run([drv], inp=inp, env=V.san_env(), timeout=3000)
+        co = rc.stdout.split("\n")
+        # the clauses on the implementation
+        vs = [kernel_variants(l) for l in chunk]
+        vin = [v[k] for v in vs for k in sorted(v)]
+        vo = V.run([drv], inp="\n".join(vin) + "\n", env=V.san_env(), timeout=3000).stdout.split("\n")
+        j = 0
+        for i, l in enumerate(chunk):
+            ck.count()
+            m = mo[i] if i < len(mo) else "?"; c = co[i] if i < len(co) else "(no output: the driver stopped)"
+            vres = {}
+            for k in sorted(vs[i]):
+                vres[k] = vo[j] if j < len(vo) else ""; j += 1
+            if m == "OOB":
+                raise V.BuildError("Model/MixKernel.v leaves the sample memory although the window holds every position of pos_at: theorem kernel_reads_in_window would be false (%s)" % l[:120])
+            why = kernel_clauses(l, c, vs[i], vres); stats["clause_checks"] += len(vs[i])
+            if why:
+                stats["clause_failures"] += 1
+                if stats["clause_failures"] <= 3:
+                    ck.violation({"engine": "kernel", "case": l, "kernel": l.split(" ", 1)[0], "what": "kernel %s: %s" % (l.split(" ", 1)[0], why),
+                                  "broken": "C14 on the implementation: a kernel of src/mix_all.c is not an accumulation of a buffer-independent, gain-linear contribution"}, key="c14:kernel-clause")
+            if m != c:
+                stats["disagreements"] += 1
+                if first_bad is None: first_bad = {"case": l, "expected_model": m[:1500], "got_impl": c[:1500], "stderr": rc.stderr[-1000:] if i >= len(co) - 1 else ""}
+                if i >= len(co) - 1: break
+            elif not why:
+                ck.nontrivial(("kern", l.split(" ", 1)[0], i % 7)); stats["frames_mixed"] += int(l.split()[3])
+        if rc.returncode != 0 and not stats["disagreements"]:
+            ck.violation({"engine": "kernel", "broken": "sanitizer report / crash inside a kernel of mix_all.c", "stderr": rc.stderr[-1500:]}, key="c14-kernel-crash")
+    if stats["disagreements"] and not stats["clause_failures"]:
+        # the correspondence broke and no clause of the property fails on any generated call: reported as such (no-failing-input-found)
+        ck.broken.append("correspondence Model/MixKernel.v vs src/mix_all.c: %d of %d kernel calls differ, first: %s" % (stats["disagreements"], len(lines), first_bad["case"].split(" ", 1)[0]))
+        ck.proof_log = json.dumps(first_bad)[:6000]
+    ck.engine_stat("kernels", **stats)
+
 SURVEY_CFGS = ("mute=ffffffffffffffff zonly", "mvol=0 zonly", "mute=ffffffffffffffff zonly repos=13")
 
 def main():
@@ -31,7 +152,9 @@ def main():
     replay = sys.argv[sys.argv.index("--replay") + 1] if "--replay" in sys.argv else None
     ck = V.Check("C14", tier)
     rng = ck.rng
-    ck.proof_leg(["Extract/Extract_mixer.vo"])
+    ck.proof_leg(["Extract/Extract_mixer.vo", "Extract/Extract_mixkernel.vo"])
+    if replay and json.load(open(replay)).get("engine") == "kernel":
+        kernel_leg(ck, tier, replay); ck.finish(); return
     drv = V.build_driver("c14_drv", ["c14_drv.c"])
     model = V.ocaml_build("mixer")
     env = V.san_env()
@@ -194,10 +317,15 @@ def main():
         if rs.returncode != 0:
             ck.violation({"survey": True, "path": os.path.relpath(sv[min(len(blocks) - 1, len(lines) - 1) // len(SURVEY_CFGS)], V.REPO), "broken": "sanitizer report / crash in the silence survey", "stderr": rs.stderr[-2000:]}, key="c14-crash")
     ck.engine_stat("mixer", **stats)
+    if not replay: kernel_leg(ck, tier, None)
     ck.cov["rule"] = ("corpus modules with <= 8 (thorough: 32) channels, random rate / interpolation / separation; per module: full render, one solo render per channel, all-muted, master volume 0, "
                       "separation +s / -s / 0; per frame the 32-bit accumulator buffer (s->buf32), the PCM and every live voice's vol/pan/gains are read from the private mixer state; "
                       "the extracted model sums the solo accumulators (must equal the full accumulator exactly), computes each voice's gains, and the PCM / mirror / silence clauses are evaluated directly")
-    ck.assumptions += ["interpolation kernels, filters and the anticlick ramp are per-voice functions outside the model: the model takes each voice's (or channel's) contribution as given and proves what addition does to them",
+    ck.cov["rule"] += ("; kernels: each of the 40 kernels of mix_all.c (nearest / linear / spline x 8/16-bit x mono/stereo sample x mono/stereo output x IT filter) called directly on random sample memory sized exactly to the "
+                       "window of the closed-form positions (exact-size heap blocks under ASan), random buffers, gains, ramps, steps of both signs, filter coefficients and histories: buffer and filter history after the call must equal "
+                       "the extracted Model/MixKernel.v; the same call on a zeroed buffer, with exchanged gains and with zero gains asks the kernel-level clauses of the compiled kernels themselves; the statements of every MIXER body are "
+                       "regenerated from the source on every run and must be the 40 bodies the kernel descriptions stand for (kernels_in_source_are_the_modelled_ones)")
+    ck.assumptions += ["the per-voice kernels (interpolation, IT filter, anticlick ramp) are modelled on unbounded integers: the products stay inside int / int64 for the argument ranges mixer.c supplies (gains below 2^16, 16-bit samples), which is not proved; the Paula (A500) kernels of mix_paula.c are not modelled",
                        "frames in which the voice limit is reached are excluded, as the property says; int32 overflow of the accumulator is outside the model"]
     ck.finish()
 
